@@ -32,11 +32,13 @@ SPEC = {
                 nontrivial=lambda w: any(e.startswith('P') for e in w.log) or any(':3' in e or '906' in e for e in w.log),
                 rule='handlers drawn from {return v, return None, raise, generator yielding k values, generator raising at step j} '
                      'x success/failure/notify flags x success_channels x nested fires; non-trivial = a generator step or a raise'),
-    'C05': dict(manual=[(['values', 'gen', 'flags', 'cancel', 'stop', 'exec'], 750), (['values', 'gen', 'flags', 'cancel', 'prio'], 300)],
+    'C05': dict(manual=[(['values', 'gen', 'flags', 'cancel', 'stop', 'exec'], 750), (['values', 'gen', 'flags', 'cancel', 'prio'], 300),
+                        (['values', 'gen', 'flags', 'call', 'genfire'], 300)],
                 run=[], kinds={'F', 'D'}, opts={},
                 nontrivial=lambda w: any(':4' in e for e in w.log),
                 rule='event trees (fan-out <=3, depth <=5, several roots with complete=True, nested requesters) with descendants '
-                     'cancelled / stopped / raising / fired from generator steps; both with and without an executing thread; '
+                     'cancelled / stopped / raising / fired from generator steps, also from the step that resumes from call()/wait(); '
+                     'both with and without an executing thread; '
                      'non-trivial = a complete event was fired'),
     'C06': dict(manual=[(['values', 'gen', 'call', 'flags', 'chan'], 600), (['values', 'gen', 'call', 'prio', 'stop'], 240)],
                 run=[(['values', 'gen', 'call', 'timeout', 'flags'], 210)],
